@@ -92,10 +92,18 @@ def correspondence(ctx):
         raise V.BuildError('c14 harness failed: ' + o[-2000:])
     corr = V.evaluate_case_file(ctx, out, ['proofs.PipesSpec'])
     for v in corr.violations:
-        if v.get('impl') == 'HANG':
-            inp = v['case'].get('input') or {}
-            v['what'] = ('%s did not return within the deadline (HANG); child script: %s'
-                         % (inp.get('api'), ' '.join(inp.get('script') or [])))
+        inp = v['case'].get('input') or {}
+        where = ''.join(', caller %s = %s' % (k, inp[k]) for k in ('stdin', 'caller') if inp.get(k)) + \
+                (', runDir kind %s' % inp['dir'] if inp.get('dir') not in (None, 'inherit') else '')
+        impl = v.get('impl') or ''
+        if impl.startswith('HANG'):
+            v['what'] = ('%s did not return within the deadline (HANG)%s; child script: %s'
+                         % (inp.get('api'), where, ' '.join(inp.get('script') or [])))
+        elif 'STDIN-CONSUMED' in impl:
+            v['what'] = ('%s consumed the standard input of the calling process%s; child script: %s'
+                         % (inp.get('api'), where, ' '.join(inp.get('script') or [])))
+        elif where:
+            v['what'] = (v.get('what') or '') + where
     ctx.c14_found = len(corr.violations)
     # the translator obligations, re-checked on a private translation of this tree
     facts = _source_facts(ctx)
@@ -113,7 +121,7 @@ def correspondence(ctx):
     corr.rule = ("scripts for a helper child process run through in_toto.RunCommand / InTotoRun under a 20 s deadline: "
                  "0..512 KiB (quick) / 0..4 MiB (thorough) per stream; fixed classes always present (more than a pipe buffer "
                  "to stderr before stdout closes, large stdout then large stderr and the reverse, alternating small writes, "
-                 "pipe-size boundaries, zero output, literal CRLF / lone CR / CR at chunk ends / NUL / invalid UTF-8 with lineNormalization on and off, lingering descendants, commands relative to the run directory, exit codes 0,1,2,126,127,128,255 + random, SIGKILL/SIGTERM, own closes, "
+                 "pipe-size boundaries, zero output, literal CRLF / lone CR / CR at chunk ends / NUL / invalid UTF-8 with lineNormalization on and off, lingering descendants, commands relative to the run directory, re-opened streams / seek attempts / grandchild writers, run-directory shapes (symlinks, odd names, relative, ..), the calling process' stdout/stderr closed, /dev/full, unread pipe, /dev/null, its stdin an idle pipe / pending data / socketpair / /dev/null / closed / regular file (calls made from a separate process), exit codes 0,1,2,126,127,128,255 + random, SIGKILL/SIGTERM, own closes, "
                  "working directories existing / with spaces / missing, missing executable, empty and nil args, InTotoRun "
                  "by-products) plus random interleavings of up to 14 writes with closes, sleeps, exits and signals. "
                  "non-trivial = the child writes something or dies by a signal, or the command cannot be started / is empty; "
